@@ -42,17 +42,78 @@ FILTERS = {
              "author/name eq 'ann' and views ge 1", "comments/any()", "not comments/any()", "comments/any(c: c/score gt 0)", "comments/all(c: c/score gt 0)",
              "comments/any(c: c/text eq 'x') and views gt 0", "comments/any(c: c/text eq 'x') or author/name eq 'bob'",
              "comments/all(c: c/text eq 'x') or views eq 0", "not comments/any(c: c/score lt 0)", "comments/any(c: c/score gt 0 and c/text eq 'x')",
-             "contains(author/name, 'n')", "length(author/name) eq 3"],
+             "contains(author/name, 'n')", "length(author/name) eq 3",
+             # a to-one relationship itself compared with a key / null (a missing related row is null)
+             "author eq null", "author ne null", "author eq 1", "author eq null or views gt 1", "author eq 1 or views eq 0",
+             "author eq 2 or comments/any(c: c/score gt 0)"],
     "Author": ["posts/any()", "posts/any(p: p/views gt 1)", "posts/all(p: p/views gt 1)", "posts/any(p: p/title eq 'a') and name eq 'ann'",
                "posts/any(p: p/comments/any(c: c/score gt 0))", "posts/all(p: p/comments/any())", "posts/any(p: p/comments/all(c: c/text eq 'x'))",
                "not posts/any(p: p/views gt 1)", "posts/any(p: p/views gt 1) or name eq 'cy'", "name eq 'ann' or posts/all(p: p/title ne 'b')"],
     "Comment": ["post/author/name eq 'ann'", "post/author/name ne 'bob' and score gt 0", "post/title eq 'a' or post/author/name eq 'cy'", "post/views gt 1",
-                "post/author/name eq null"],
+                "post/author/name eq null", "post eq null", "post/author eq 1", "post/author eq 1 or score gt 0", "post/author eq null"],
 }
 
 
 def families(facts):
-    return ["path[django]", "path[sa_orm]", "lambda[sa_orm]", "bounded.semantics[django]", "bounded.semantics[sa_orm]", "canary"]
+    return ["path[django]", "path[sa_orm]", "fk[sa_orm]", "lambda[sa_orm]", "bounded.semantics[django]", "bounded.semantics[sa_orm]", "canary"]
+
+
+def run_fk_sa(facts, tier):
+    """SQLAlchemy ORM: a to-one relationship compared with a key / null (`author eq 1`, `author eq null`) is replaced by the LOCAL
+    foreign-key column of the relationship, and nothing is joined for it:
+        _maybe_sub_relationship_with_foreign_key(e) in { e, next(iter(inspect(e).property._calculated_foreign_keys)) },  self unchanged
+    (a comparison through the related table's key would need a join, and an inner join drops the parents whose key is NULL)."""
+    from vc.propkit import explore, src_of
+    from vc.symexec import FuncRef
+    t0 = time.time()
+    c = Q.build(facts)
+    E = c["E"]
+    bkey = "sa_orm"
+    cls = O.BACKENDS[bkey]
+    O.install(c, bkey)
+    m = facts.classes[cls]["members"].get("_maybe_sub_relationship_with_foreign_key")
+    name = f"C04:{bkey}:{cls}._maybe_sub_relationship_with_foreign_key"
+    if m is None:
+        return [{"name": name + ":cover", "clause": "cover", "status": "undecided", "seconds": 0.0, "selfcheck_failed": True,
+                 "reason": "helper not found (renamed?): the foreign-key substitution is not under contract"}]
+
+    def runner(path):
+        self_obj = O.make_self(c, bkey)
+        path.ghost["self_obj"] = self_obj
+        return E.run_function(path, FuncRef(m, defcls=m["definer"]), [self_obj, ExtVal("<elem>")], self_val=self_obj)
+    rs = explore(E, runner)
+    out = []
+    want = "next(iter(getattr(getattr(inspect(<elem>()), 'property'), '_calculated_foreign_keys')))"
+    n_ret = 0
+    for i, (path, oc) in enumerate(rs):
+        if oc[0] == "unsupported":
+            out.append({"name": name + ":unsupported", "clause": "unsupported", "status": "undecided", "seconds": 0.0, "reason": oc[1],
+                        "source": src_of(m), "path": i})
+            continue
+        if oc[0] != "return":
+            out.append({"name": name + ":safety.raise", "clause": "safety.raise", "status": "refuted", "seconds": time.time() - t0,
+                        "backend": "pyvc (term comparison)", "reason": repr(oc)[:200], "solver_output": repr(oc)[:200], "source": src_of(m), "path": i,
+                        "orm": bkey, "witness": {"backend": bkey}})
+            continue
+        n_ret += 1
+        got = repr(oc[1])
+        ok = got in ("<elem>()", want)
+        joins = path.ghost["self_obj"].attrs.get("join_relationships")
+        items = joins.content if isinstance(joins, ListObj) and joins.is_concrete() else None
+        jok = items == [] and not path.ghost.get("writes")
+        for clause, good, reason in (("post.template", ok, "the element itself or the relationship's local foreign-key column" if ok else
+                                      f"the helper returns {got[:200]}; prescribed: the element or {want}"),
+                                     ("frame", jok, "nothing is joined or stored for the substitution" if jok else
+                                      f"join_relationships = {items!r}, writes = {path.ghost.get('writes')!r}"[:200])):
+            r = {"name": f"{name}:{clause}", "clause": clause, "status": "discharged" if good else "refuted", "seconds": time.time() - t0,
+                 "backend": "pyvc (term comparison)", "reason": reason, "source": src_of(m), "path": i, "orm": bkey, "witness": {"backend": bkey},
+                 "what": "fk"}
+            if not good:
+                r["solver_output"] = reason
+            out.append(r)
+    if n_ret == 0:
+        out.append({"name": name + ":cover", "clause": "cover", "status": "undecided", "seconds": 0.0, "selfcheck_failed": True, "reason": "no returning path"})
+    return out
 
 
 def is_visit_of(v, term):
@@ -368,6 +429,8 @@ def run_family(facts, fam, tier):
         return run_path(facts, fam[5:-1], tier)
     if fam == "lambda[sa_orm]":
         return run_lambda_sa(facts, tier)
+    if fam == "fk[sa_orm]":
+        return run_fk_sa(facts, tier)
     if fam.startswith("bounded.semantics["):
         return bounded(fam[len("bounded.semantics["):-1], tier)
     raise ValueError(fam)
